@@ -55,8 +55,8 @@ func (p *DeletionParameters) ComputeInputHashDeletion() error {
 		return err
 	}
 	data = append(data, buf.Bytes()...)
-	data = append(data, p.PreRoot.Bytes()...)
-	data = append(data, p.PostRoot.Bytes()...)
+	data = append(data, bytes32BigEndian(&p.PreRoot)...)
+	data = append(data, bytes32BigEndian(&p.PostRoot)...)
 
 	hashBytes := keccak256.Hash(data)
 	p.InputHash.SetBytes(hashBytes)
